@@ -18,7 +18,7 @@ RULE = ("Every PDAG with acyclic directed part on p<=4 nodes x every node subset
         "collider whose parents are joined by an (un)directed edge, or a weighted input, or S neither empty nor full. Also: relabelling into 9..70 labels, further dtypes, tiny weights, colliders with 30..40 parents, complete graphs minus a few edges on 300..600 nodes.")
 ASSUMPTIONS = [
     "weighted matrices with undirected edges are outside the stated domain (A + A.T may cancel) and are not generated",
-    "moral_graph is checked on DAG inputs (its documented domain)",
+    "moral_graph is checked on every binary PDAG and on weighted DAGs (parents = tails of directed edges)",
     "element types / order of lists are free",
 ]
 
@@ -145,7 +145,8 @@ def check(case):
     if bool(comp) != want_comp:
         raise Violation("is_complete_wrong", "is_complete = %r, expected %r; %s" % (comp, want_comp, ctx))
 
-    if not any(u):
+    if not any(u) or not weighted:
+        # the statement defines it for any PDAG: skeleton plus an edge between every two parents (directed edges) of a common child
         mg = np.asarray(must(lib(utils.moral_graph, A), "moral_graph"))
         want_m = list(sk)
         for c in range(p):
